@@ -28,6 +28,7 @@ impl Property for C13 {
     }
     fn run(&self, s: &Streams) -> CaseOut {
         let mut out = CaseOut::new();
+        out.owns_panics = true;
         let mut cfg = expansion_cfg();
         cfg.allow_input_x = false;
         cfg.omit_cols = true;
@@ -53,7 +54,7 @@ impl Property for C13 {
             out.discard("step-cap");
             return out;
         }
-        let opts = RunOpts { max_next: 200, ..Default::default() };
+        let opts = RunOpts { max_next: 200, fuel: fuel_for(t.facts.steps), ..Default::default() };
         let base = run_real(&tc, &built.sigs, &spec0, &opts);
         if base.ctor.is_some() || base.items.iter().any(|i| !matches!(i, RealItem::Row(_))) {
             // the fault-free run must be clean in this profile; anything else is C01/C10's business
@@ -79,7 +80,7 @@ impl Property for C13 {
         if use_deviation && !checked.is_empty() {
             let k = checked[dch.upto(checked.len())];
             // index (among output-reading calls as seen by the driver) of the call made for item k
-            let c = base.log[..k + 1].iter().filter(|c| c.read).count();
+            let c = k + 1; // every item makes exactly one call; the constructor made call 0
             let n = spec.layout.len();
             let outs: Vec<usize> = (0..built.sigs.len()).filter(|i| built.sigs[*i].is_output()).collect();
             let p = dch.upto(n);
@@ -171,7 +172,7 @@ impl Property for C13 {
         }
         out.nontrivial = true;
         let k = j - 1; // every item makes exactly one call; constructor is call 0
-        if base.log[j].read && matches!(&base.items[k], RealItem::Row(r) if !r.outputs.is_empty()) {
+        if base.log.get(j).map(|c| c.read).unwrap_or(false) && matches!(base.items.get(k), Some(RealItem::Row(r)) if !r.outputs.is_empty()) {
             out.class("fail-at-checked-row");
         } else {
             out.class("fail-at-mid-clock-write");
